@@ -3,6 +3,7 @@ package rules
 import (
 	"fmt"
 	"go/token"
+	"go/types"
 
 	"golang.org/x/tools/go/ssa"
 
@@ -496,6 +497,120 @@ func reachesReturnAvoiding(b *ssa.BasicBlock, avoid map[*ssa.BasicBlock]bool) bo
 			}
 		}
 		stack = append(stack, x.Succs...)
+	}
+	return false
+}
+
+// ---------------------------------------------------------------------------
+// R65: every source of a compose has its own precondition evaluated.
+//
+// C04: "compose (destination conditions and per-source generation match) … is
+// performed if and only if every supplied precondition holds".  In the loop over
+// the request's sources, an iteration that reaches the next one (or the end of
+// the loop) without having passed `validateConds(·, <this element's conditions>)`
+// lets that source's ifGenerationMatch go unevaluated — e.g. a fetch cache keyed
+// by name that validates only on a miss: `[x@current, x@stale]` composes.
+// A path that bypasses the validation under a test of the element's own
+// conditions (nothing to check) is not a skip.
+// ---------------------------------------------------------------------------
+
+func R65() Rule {
+	return Rule{Name: "R65", Run: func(c *core.Ctx) {
+		P := c.P
+		if P.SPkgs[core.PkgGcsemu] == nil {
+			return
+		}
+		root := funcOr(P, core.PkgGcsemu, "(*GcsEmu).finishCompose", "(*GcsEmu).handleGcsCompose")
+		if root == nil {
+			root = P.MustFunc(core.PkgGcsemu, "(*GcsEmu).finishCompose")
+		}
+		c.Fn(core.FuncName(root))
+		scope := P.Scope(root, func(f *ssa.Function) bool { return core.PkgPathOf(f) != core.PkgGcsemu })
+		within := setOf(scope)
+		vc := P.MustFunc(core.PkgGcsemu, "validateConds")
+		n := 0
+		for _, lf := range scope {
+			for _, lp := range rangeLoops(lf) {
+				if !elemIs(lp.elem, "composeObj") {
+					continue
+				}
+				loop := loopOf(lp.header)
+				if loop == nil {
+					continue
+				}
+				// validations of the element's own conditions inside this loop (possibly through helpers
+				// that are certain to validate)
+				through := map[*ssa.BasicBlock]bool{}
+				var pos token.Pos
+				for _, ci := range core.CallsIn(scope, func(ci *core.CallInfo) bool { return ci.Static == vc }) {
+					for _, x := range liftInto(P, ci.Instr, within, true)[lf] {
+						if loop[x.Block()] {
+							through[x.Block()] = true
+							pos = ci.Instr.Pos()
+						}
+					}
+				}
+				if len(through) == 0 {
+					continue // a loop over the sources that validates nothing (collecting sizes, names): not the validating loop
+				}
+				n++
+				construct := fmt.Sprintf("%s/sources-loop#%d/every-source-validated", core.FuncName(core.Root(lf)), n)
+				// a bypass decided by the element's own conditions is no skip
+				for b := range loop {
+					if ifi, ok := lastIf(b); ok && dependsOnElemConds(ifi.Cond, map[ssa.Value]bool{}, 0) {
+						through[b] = true
+					}
+				}
+				if iterationCanSkip(loop, lp.header, through) {
+					c.Bad("R65", construct, pos, "an iteration of the loop over the compose sources can reach the next source without evaluating this source's own precondition: validateConds is only called on some paths (a cache hit, a repeated name), so a source listed again with a failing ifGenerationMatch is composed anyway")
+				} else {
+					c.Ok("R65", construct, pos, true, "every path through one iteration of the sources loop passes validateConds")
+				}
+			}
+		}
+		if n == 0 {
+			c.Bad("R65", core.FuncName(root)+"/sources-loop/every-source-validated", root.Pos(), "no loop over the compose sources evaluates the per-source preconditions")
+		}
+	}}
+}
+
+// dependsOnElemConds: the value is computed from a `conds` field of a composeObj.
+func dependsOnElemConds(v ssa.Value, seen map[ssa.Value]bool, depth int) bool {
+	if v == nil || depth > 8 || seen[v] {
+		return false
+	}
+	seen[v] = true
+	switch x := v.(type) {
+	case *ssa.FieldAddr:
+		if _, fname, ok := core.FieldName(x); ok && fname == "conds" {
+			if nm := core.NamedOf(x.X.Type()); nm != nil && core.TName(nm) == "composeObj" {
+				return true
+			}
+		}
+		return dependsOnElemConds(x.X, seen, depth+1)
+	case *ssa.Field:
+		if nm := core.NamedOf(x.X.Type()); nm != nil && core.TName(nm) == "composeObj" {
+			if st, ok := nm.Underlying().(*types.Struct); ok && x.Field < st.NumFields() && st.Field(x.Field).Name() == "conds" {
+				return true
+			}
+		}
+		return dependsOnElemConds(x.X, seen, depth+1)
+	case *ssa.UnOp:
+		return dependsOnElemConds(x.X, seen, depth+1)
+	case *ssa.BinOp:
+		return dependsOnElemConds(x.X, seen, depth+1) || dependsOnElemConds(x.Y, seen, depth+1)
+	case *ssa.Call:
+		for _, a := range x.Call.Args {
+			if dependsOnElemConds(a, seen, depth+1) {
+				return true
+			}
+		}
+	case *ssa.Phi:
+		for _, e := range x.Edges {
+			if dependsOnElemConds(e, seen, depth+1) {
+				return true
+			}
+		}
 	}
 	return false
 }
